@@ -89,7 +89,6 @@ CONDITIONS = [
      'tiers': {'quick': {'bounds': dict(QB, L2=[0, 2, 3], DELAYS=[0, 8, 13], RATES=[1, 2]), 'timeout': 600,
                          'shards': [{'life': list(p)} for p in _LIFE2], 'witness_shard': {'life': ['hang', 'ok']}},
                'thorough': {'bounds': TB, 'timeout': 8000,
-                            'shards': [dict({'life': list(p)}, **TWIDE13) for p in _LIFE2] +
-                                      [{'life': list(p), 'b.CONSUME': [0]} for p in (('ok', 'ok'), ('hang', 'ok'), ('ok', 'die'), ('die_idle', 'hang'))],
+                            'shards': [dict({'life': list(p)}, **TWIDE13) for p in _LIFE2],
                             'witness_shard': {'life': ['hang', 'ok']}}}},
 ]
